@@ -6,6 +6,7 @@ from .. import paths as P
 from ..lazy import FlowAnalyser, GROW_METHODS, carried_names, in_loop_body
 from ..loader import methods
 from ..selftest.runner import M, TW, V
+from . import common as K
 
 PROPERTY = "C02"
 EXPLANATION = (
